@@ -544,3 +544,84 @@ func (c *Ctx) chunkScanRule(rule string, fns []*ssa.Function) int {
 	}
 	return n
 }
+
+// partitionRemainderRule (T19): a quotient q = n / d that is used as a stride (multiplied by something other than d,
+// as in w*q .. (w+1)*q for worker w) splits n items into d shares of q; the n % d items behind the last share are
+// never visited unless the dividend turns up again in a remainder-handling role (n % d, n - x, a comparison with n, a
+// min with n, or n used directly as a slice/loop bound next to the products). Multiplying back by the divisor itself
+// (n / d * d) is rounding, not a partition, and is left alone. Returns the number of stride quotients examined.
+func (c *Ctx) partitionRemainderRule(rule string, fns []*ssa.Function) int {
+	n := 0
+	perFn := map[*ssa.Function]int{}
+	sameVal := func(a, b ssa.Value) bool {
+		if a == b {
+			return true
+		}
+		ka, okA := constInt(a)
+		kb, okB := constInt(b)
+		return okA && okB && ka == kb
+	}
+	for _, f := range fns {
+		if f.Blocks == nil {
+			continue
+		}
+		for _, b := range f.Blocks {
+			for _, in := range b.Instrs {
+				q, ok := in.(*ssa.BinOp)
+				if !ok || q.Op != token.QUO {
+					continue
+				}
+				if bt, ok := q.Type().Underlying().(*types.Basic); !ok || bt.Info()&types.IsInteger == 0 {
+					continue
+				}
+				if _, isK := q.X.(*ssa.Const); isK {
+					continue
+				}
+				stride := false
+				for _, r := range nonDebugRefs(q) {
+					if m, ok := r.(*ssa.BinOp); ok && m.Op == token.MUL {
+						other := m.X
+						if other == ssa.Value(q) {
+							other = m.Y
+						}
+						if !sameVal(other, q.Y) {
+							stride = true
+						}
+					}
+				}
+				if !stride {
+					continue
+				}
+				n++
+				perFn[f]++
+				handled := false
+				for _, r := range nonDebugRefs(q.X) {
+					if r == ssa.Instruction(q) {
+						continue
+					}
+					switch u := r.(type) {
+					case *ssa.BinOp:
+						switch u.Op {
+						case token.REM, token.SUB, token.LSS, token.LEQ, token.GTR, token.GEQ, token.EQL, token.NEQ:
+							handled = true
+						case token.ADD:
+							handled = handled || false
+						}
+					case *ssa.Slice, *ssa.Phi:
+						handled = true
+					case *ssa.Call:
+						if bi, ok := u.Call.Value.(*ssa.Builtin); ok && (bi.Name() == "min" || bi.Name() == "max") {
+							handled = true
+						}
+					}
+				}
+				// ceiling division: (n + d - 1) / d covers the remainder by construction
+				if add, ok := q.X.(*ssa.BinOp); ok && (add.Op == token.ADD || add.Op == token.SUB) {
+					handled = true
+				}
+				c.S.Check(handled, rule, fmt.Sprintf("%s:stride quotient %d", load.FuncName(f), perFn[f]), c.pos(q.Pos()), "the remainder of the division is dealt with", "the quotient is used as a stride (work split into equal shares) and the dividend is never looked at again: the items behind the last full share (dividend modulo divisor) are never processed")
+			}
+		}
+	}
+	return n
+}
